@@ -390,6 +390,12 @@ Section Final.
     intros WF H Hrun. exact (collective_logs_equal_sync P WF h v0 st0 b0 c (sync_history P WF h H) Hrun).
   Qed.
 
+  Theorem creation_logs_equal_guarded P :
+    (p_eager_meshes P = true \/ p_gs P = 1) -> forall r r', ctor_log P r = ctor_log P r'.
+  Proof.
+    intros [H|H] r r'; [exact (creation_logs_equal_eager P H r r') | exact (creation_logs_equal_gs1 P H r r')].
+  Qed.
+
   (* ... and never block: a lock-step run exists for every history *)
   Theorem ddp_never_blocks P h c0 : wf_config P -> sync_hyp P h -> ddp_run P h c0 <> None.
   Proof. intros WF H. rewrite (ddp_run_tot P WF) by (apply sync_history; assumption). discriminate. Qed.
